@@ -496,3 +496,39 @@ func (g *resultGate) Edge(cond ast.Expr, taken bool, f Facts) {
 		}
 	}
 }
+
+// dnfCond returns the alternatives (a disjunction of conjunctions of atoms) known when cond evaluates to taken.
+// splitCond gives up on the true edge of `a || b` and the false edge of `a && b`; here each disjunct becomes its
+// own alternative, so a rule can ask "does every alternative establish what I need?".
+func dnfCond(cond ast.Expr, taken bool) [][]condAtom {
+	cond = ast.Unparen(cond)
+	switch x := cond.(type) {
+	case *ast.UnaryExpr:
+		if x.Op == token.NOT {
+			return dnfCond(x.X, !taken)
+		}
+	case *ast.BinaryExpr:
+		if x.Op == token.LAND || x.Op == token.LOR {
+			conj := (x.Op == token.LAND) == taken // a&&b true, a||b false: both sides known
+			l, r := dnfCond(x.X, taken), dnfCond(x.Y, taken)
+			if conj {
+				var out [][]condAtom
+				for _, a := range l {
+					for _, b := range r {
+						out = append(out, append(append([]condAtom{}, a...), b...))
+					}
+				}
+				if len(out) > 16 {
+					return [][]condAtom{{}}
+				}
+				return out
+			}
+			out := append(append([][]condAtom{}, l...), r...)
+			if len(out) > 16 {
+				return [][]condAtom{{}}
+			}
+			return out
+		}
+	}
+	return [][]condAtom{{{cond, taken}}}
+}
